@@ -91,6 +91,7 @@ class Runner:
         self.model = {c[0]: {} for c in COLS}     # path -> {prop: value}
         self.provenance = {c[0]: {} for c in COLS}
         self.members = {}
+        self.removed = {c[0]: {} for c in COLS}   # path -> {prop: value it had when it was removed}
         self.log = []
 
     def viol(self, sig, msg, extra=None):
@@ -115,6 +116,11 @@ class Runner:
                 got = resp.prop_text(prop)
                 st = resp.prop_status(prop)
                 if want is None:
+                    old = self.removed[p].get(prop)
+                    if old is not None:
+                        res.count("removed_value_checks")
+                        if got == old:
+                            self.viol(f"{meta}/{X.q(prop)}/removed-value-served-again", f"{p}: {prop} was removed (reported 200) but PROPFIND returns the old value {old!r} again ({when})")
                     continue
                 res.count("value_comparisons")
                 fc = feature(want)
@@ -145,6 +151,7 @@ class Runner:
         res.seen(meta, prop, fc, st if st is not None else s.status)
         if st == 200:
             self.model[p][prop] = v
+            self.removed[p].pop(prop, None)
             self.provenance[p][prop] = "PROPPATCH"
             res.count("sets_ok")
             res.count("sets_ok:" + fc)
@@ -166,6 +173,7 @@ class Runner:
         for pr, v in sets:
             if results.get(pr) == 200:
                 self.model[p][pr] = v
+                self.removed[p].pop(pr, None)
                 self.provenance[p][pr] = "PROPPATCH with %d properties (%s)" % (len(sets), ", ".join(X.q(x) for x, _ in sets))
                 res.count("sets_ok")
                 res.count("sets_ok:" + feature(v))
@@ -186,7 +194,10 @@ class Runner:
         res.count("removes")
         res.count("remove_status:%s" % (st if st is not None else "http-%s" % s.status))
         if st == 200:
+            res.count("removes_ok")
             old = self.model[p].pop(prop, None)
+            if old is not None:
+                self.removed[p][prop] = old
             # after a successful remove the old value must be gone
             s2, r2 = w.propfind(w.url(p), [prop], "0", record=False)
             try:
@@ -199,6 +210,7 @@ class Runner:
         elif s.status >= 500 or s.status == 0:
             # the outcome of a crashed request is unknown to the client: re-learn
             res.count("remove_5xx")
+            self.viol(f"{meta}/{X.q(prop)}/remove-answers-{s.status}", f"{p}: PROPPATCH remove of {prop} (set to {self.model[p].get(prop)!r} before) answered {s.status}: a property can never be removed")
             self.relearn(p, kind, prop)
         self.read_all("after-remove")
 
@@ -284,16 +296,48 @@ def run_shard(args):
             w.mkcol("/user/calendars/cal0/", "calendar")
         v3 = gen_value(rng, X.P_DISPLAYNAME, "file", False)
         v4 = gen_value(rng, X.P_ABDESC, "file", False)
-        s, r = w.call("mkcol-ext", "MKCOL", w.url("/user/contacts/ab0/"), [X.XML_CT], X.mkcol_ext("addressbook", [(X.P_DISPLAYNAME, v3), (X.P_ABDESC, v4)]))
-        if W.World.success(s.eff):
-            ok = propstat_of(r.body)
-            for k, v in ((X.P_DISPLAYNAME, v3), (X.P_ABDESC, v4)):
-                if ok.get(k) == 200:
-                    run.model["/user/contacts/ab0/"][k] = v
-                    run.provenance["/user/contacts/ab0/"][k] = "extended-MKCOL"
+        # the address book is created in one of the ways a client may choose: the order of the
+        # properties inside the request, or typing a plain collection afterwards, must not matter
+        how = rng.choice(["extended-MKCOL", "extended-MKCOL-resourcetype-last", "MKCOL+PROPPATCH-properties+PROPPATCH-resourcetype", "MKCOL+PROPPATCH-properties-and-resourcetype"])
+        res.count("ab0_created_by:" + how)
+        ab = "/user/contacts/ab0/"
+        pairs = ((X.P_DISPLAYNAME, v3), (X.P_ABDESC, v4))
+        if how.startswith("extended-MKCOL"):
+            s, r = w.call("mkcol-ext", "MKCOL", w.url(ab), [X.XML_CT], X.mkcol_ext("addressbook", list(pairs), rt_last=how.endswith("last")))
+            if W.World.success(s.eff):
+                ok = propstat_of(r.body)
+                for k, v in pairs:
+                    if ok.get(k) == 200:
+                        run.model[ab][k] = v
+                        run.provenance[ab][k] = how
+            else:
+                res.inconclusive.append("extended MKCOL refused: %s" % s.eff)
+                w.mkcol(ab, "addressbook")
         else:
-            res.inconclusive.append("extended MKCOL refused: %s" % s.eff)
-            w.mkcol("/user/contacts/ab0/", "addressbook")
+            s, r = w.call("mkcol", "MKCOL", w.url(ab), [], None)
+            # addressbook-description only exists on address books: the display name goes first, the description after the type
+            if how == "MKCOL+PROPPATCH-properties+PROPPATCH-resourcetype":
+                s1, r1, results = w.proppatch(ab, sets=[(X.P_DISPLAYNAME, v3)])
+                if results.get(X.P_DISPLAYNAME) == 200:
+                    run.model[ab][X.P_DISPLAYNAME] = v3
+                    run.provenance[ab][X.P_DISPLAYNAME] = how
+                s2, r2 = w.call("proppatch-resourcetype", "PROPPATCH", w.url(ab), [X.XML_CT], X.proppatch_resourcetype("addressbook"))
+            else:
+                s2, r2 = w.call("proppatch-resourcetype", "PROPPATCH", w.url(ab), [X.XML_CT], X.proppatch_resourcetype("addressbook", [(X.P_DISPLAYNAME, v3)]))
+                try:
+                    rs2, _ = X.parse_multistatus(r2.body)
+                    if rs2 and rs2[0].prop_status(X.P_DISPLAYNAME) == 200:
+                        run.model[ab][X.P_DISPLAYNAME] = v3
+                        run.provenance[ab][X.P_DISPLAYNAME] = how
+                except X.MalformedXML:
+                    pass
+            s3, r3, results = w.proppatch(ab, sets=[(X.P_ABDESC, v4)])
+            if results.get(X.P_ABDESC) == 200:
+                run.model[ab][X.P_ABDESC] = v4
+                run.provenance[ab][X.P_ABDESC] = how
+            o = w.audit_col(ab)
+            if X.P_RT_AB not in (o.get("rt") or []):
+                res.inconclusive.append("typing a plain collection as address book by PROPPATCH did not work: %r" % (o.get("rt"),))
         run.log.append({"op": "create-with-props", "cal0": [v1, v2], "ab0": [v3, v4]})
         run.read_all("after-create")
         ops = [("set", 10), ("set_multi", 3), ("remove", 2), ("unsettable", 1), ("restart", 0.6), ("other", 1.5)]
@@ -320,7 +364,7 @@ def check(tier, seed, t0):
     c = merged["counters"]
     k = 1 if not th else 10
     guards = [("sets", c.get("sets", 0), 300 * k), ("sets reported 200", c.get("sets_ok", 0), 300 * k), ("value comparisons after read-back", c.get("value_comparisons", 0), 3000 * k),
-              ("restarts", c.get("restarts", 0), 12), ("removes", c.get("removes", 0), 50 * k), ("PROPPATCH requests setting several properties", c.get("multi_sets", 0), 80 * k)]
+              ("restarts", c.get("restarts", 0), 12), ("address books typed after their properties were set", sum(v for k_, v in c.items() if k_.startswith("ab0_created_by:") and k_ != "ab0_created_by:extended-MKCOL"), 3), ("removes", c.get("removes", 0), 50 * k), ("removes reported 200", c.get("removes_ok", 0), 40 * k), ("reads of a removed property", c.get("removed_value_checks", 0), 200 * k), ("PROPPATCH requests setting several properties", c.get("multi_sets", 0), 80 * k)]
     for f in ("percent", "hash", "backslash", "dquote", "bracket", "equals", "colon", "nonascii", "plain"):
         guards.append(("successful sets with feature " + f, c.get("sets_ok:" + f, 0), 3))
     return common.finish(PROP, tier, seed, "exploration", merged, failures, RULE, t0, guards=guards,
